@@ -14,7 +14,8 @@ def html_bytes(html: str, bom: bool = False) -> bytes:
     return (b"\xef\xbb\xbf" if bom else b"") + html.encode("utf-8")
 
 
-def mhtml_bytes(html: str, cte: str = "quoted-printable", crlf: bool = True, with_image: bool = True, subject: str = "saved page") -> bytes:
+def mhtml_bytes(html: str, cte: str = "quoted-printable", crlf: bool = True, with_image: bool = True, subject: str = "saved page", cte_spelling: str | None = None) -> bytes:
+    """cte_spelling: how the encoding's name is written in the header (MIME header values of this kind are case-insensitive: 'Quoted-Printable', 'BASE64')."""
     nl = "\r\n" if crlf else "\n"
     raw = html.encode("utf-8")
     if cte == "quoted-printable":
@@ -27,7 +28,7 @@ def mhtml_bytes(html: str, cte: str = "quoted-printable", crlf: bool = True, wit
     b = "----=_NextPart_VF_000"
     parts = [f"From: <Saved by VF>{nl}Subject: {subject}{nl}Date: Fri, 1 Mar 2024 12:00:00 +0000{nl}MIME-Version: 1.0{nl}"
              f'Content-Type: multipart/related;{nl}\ttype="text/html";{nl}\tboundary="{b}"{nl}{nl}This is a multi-part message in MIME format.{nl}{nl}',
-             f"--{b}{nl}Content-Type: text/html;{nl}\tcharset=\"utf-8\"{nl}Content-Transfer-Encoding: {cte}{nl}Content-Location: http://example.org/page.html{nl}{nl}",
+             f"--{b}{nl}Content-Type: text/html;{nl}\tcharset=\"utf-8\"{nl}Content-Transfer-Encoding: {cte_spelling or cte}{nl}Content-Location: http://example.org/page.html{nl}{nl}",
              body, nl]
     if with_image:
         parts += [f"--{b}{nl}Content-Type: image/png{nl}Content-Transfer-Encoding: base64{nl}Content-Location: http://example.org/i.png{nl}{nl}",
